@@ -33,10 +33,13 @@ ASSUMPTIONS = [
 NAMES = ["A", "STATUS", "Status", "status", "A.B", "A/B", "A-B", "A_B", "a-b", "a_b", "A_DOT_B", "A.b", "ÉTÉ", "名前", "😀x", "K9", "X__Y", "_X", "X_",
          "WS", "ws", "FIELD", "CONTENT", "DOCUMENT", "ROOT", "ENVELOPE-START", "ENVELOPE-END", "META-BLOCK", "META-CONTENT", "META-FIELD"]
 REGEXES = ["^abc$", "^[a-z]+$", "^[A-Z][a-z]*$", "^[0-9]{1,2}$", "^a|b$", "^(a|b)c$", "^a\\.b$", "^a.b$", "^\\d+$", "^x{2,3}$", "^[^a]$", "^a?b+c*$",
-           "^\\[x\\]$", "^a\\\\b$", "^\"q\"$", "^a b$", "^$", "^.+$", "^[a-z]$", "^(?:a)$", "^a-b$", "^é$", "^[\\]]$", "^a#b$", "^[a\\-z]+$", "^[.]$", "^[a-z0-9_]+$", "^[\\\\]$"]
+           "^\\[x\\]$", "^a\\\\b$", "^\"q\"$", "^a b$", "^$", "^.+$", "^[a-z]$", "^(?:a)$", "^a-b$", "^é$", "^[\\]]$", "^a#b$", "^[a\\-z]+$", "^[.]$", "^[a-z0-9_]+$", "^[\\\\]$",
+           # several classes with literal glue between them (glue that is not GBNF syntax by itself)
+           "^[a-z]+@[a-z]+$", "^[a-z]+-[0-9]+$", "[A-Z]+_[0-9]", "^[a-z]+:[0-9]+$", "^[a-z]+/[a-z]+$", "[a-z]+,[a-z]*", "^[a]b]$", "^[a-z] [a-z]$",
+           "^[#0-9a-f]+$", "^[a-z]+#[0-9]?$"]
 CHAINS = (["REQ", "OPT", "CONST[X]", "CONST[5]", 'CONST["a b"]', 'CONST["q\\"q"]', 'CONST["b\\\\s"]', "ENUM[A,B]", "ENUM[ACTIVE,ARCHIVED,DONE]", "ENUM[5,6]",
            'ENUM["a b","c"]', "TYPE[STRING]", "TYPE[NUMBER]", "TYPE[BOOLEAN]", "TYPE[LIST]", "RANGE[0,10]", "MAX_LENGTH[3]", "MIN_LENGTH[1]", "MIN_LENGTH[0]",
-           "DATE", "ISO8601", "DIR", "APPEND_ONLY", "TYPE[LITERAL]", "LANG[py]", "REQ∧ENUM[A,B]", "OPT∧TYPE[NUMBER]∧RANGE[0,5]", "REQ∧DATE"]
+           "DATE", "ISO8601", "DIR", "APPEND_ONLY", "TYPE[LITERAL]", "LANG[py]", 'ENUM["C#","F#"]', 'CONST["#general"]', 'ENUM["issue #12",b]', "REQ∧ENUM[A,B]", "OPT∧TYPE[NUMBER]∧RANGE[0,5]", "REQ∧DATE"]
           + [f'REGEX["{r}"]' for r in REGEXES] + [f'REQ∧REGEX["{REGEXES[0]}"]'])
 
 STRUCTURAL = {"ws", "field", "content", "document", "root"}
